@@ -111,6 +111,11 @@ func GoroutinesMatching(settle time.Duration, subs ...string) []string {
 			if i == 0 {
 				continue // the caller
 			}
+			// a goroutine that is running or runnable is not "left behind": on a loaded machine one that has just signalled
+			// its completion may wait for the CPU for a long time before it is gone; only blocked goroutines count
+			if m := goroutineHdr.FindStringSubmatch(g); m != nil && (strings.HasPrefix(m[2], "running") || strings.HasPrefix(m[2], "runnable")) {
+				continue
+			}
 			for _, s := range subs {
 				if strings.Contains(g, s) {
 					out = append(out, g)
